@@ -203,16 +203,16 @@ class Ctx:
             self._purity[config] = Purity(self.facts(config))
         return self._purity[config]
 
-    def paths(self, name, config=None, opaque=(), inline=True, expand=()):
+    def paths(self, name, config=None, opaque=(), inline=True, expand=(), atomic=()):
         """all paths of a body (cached); raises CannotAnalyse"""
         config = config or self.config
-        key = (name, config, tuple(sorted(opaque)), inline, tuple(sorted(expand)))
+        key = (name, config, tuple(sorted(opaque)), inline, tuple(sorted(expand)), tuple(sorted(atomic)))
         if key not in self._paths:
             f = self.facts(config)
             b = f.body(name)
             if b is None:
                 raise sym.CannotAnalyse('no body %s' % name)
-            ex = sym.Explorer(f, b, self.purity(config), inline=inline, opaque=opaque, expand=expand)
+            ex = sym.Explorer(f, b, self.purity(config), inline=inline, opaque=opaque, expand=expand, atomic=atomic)
             self._paths[key] = (b, ex.explore())
         return self._paths[key]
 
